@@ -1,6 +1,6 @@
 SPEC = dict(
     props_file="C11",
-    legs=[dict(family="countmin", focus="codec", oracles=["prop_roundtrip"], profiles=["debug", "release"], n_quick=150, n_thorough=1500)],
+    legs=[dict(family="countmin", focus="codec", oracles=["prop_roundtrip"], profiles=["debug", "release"], panic_is_violation=True, n_quick=150, n_thorough=1500)],
     level_text="Theorems (Props/C11.v and its parts Props/C11_<family>.v): per family, deserialize(serialize(s)) = Ok s for every well-formed state and every reachable "
                "state is well-formed (so queries, re-serialization and all further behaviour coincide). Tie: model bytes = crate bytes, and "
                "a twin oracle on the crate alone: after forking a sketch through serialize/deserialize every subsequent operation "
